@@ -73,6 +73,9 @@ static int c15_out_append(sqfs_ostream_t *strm, const void *data, size_t size)
 	return 0;
 }
 
+static int c15_out_flush(sqfs_ostream_t *strm) { (void)strm; return 0; }
+static const char *c15_out_filename(sqfs_ostream_t *strm) { (void)strm; return "out"; }
+
 void *memmove(void *dst, const void *src, size_t n)
 {
 	VERIF_ASSERT(g_moves == 0 && g_fed < g_avail_in &&
@@ -121,6 +124,8 @@ void harness(void)
 		VERIF_ASSERT(ret == (g_codec_err ? SQFS_ERROR_COMPRESSOR
 						 : g_out_errcode), "C15.out.fail");
 	VERIF_ASSERT(g_fed <= used0, "C15.out.consumed_once");
+	if (ret != 0)
+		VERIF_ASSERT(g_x.inbuf_used == used0, "C15.out.fail");
 	VERIF_ASSERT(g_iwcount == (g_iw < g_fed ? 1 : 0), "C15.out.consumed_once");
 	if (g_iw < g_fed)
 		VERIF_ASSERT(g_iwsrc == g_x.inbuf + g_iw, "C15.out.consumed_once");
@@ -133,7 +138,7 @@ void harness(void)
 			VERIF_ASSERT(g_iwat == (size_t)(g_iw - g_fed),
 				     "C15.out.consumed_once");
 		if (finish)
-			VERIF_ASSERT(g_last == XFRM_STREAM_END && g_ncalls > 0,
+			VERIF_ASSERT(g_last == XFRM_STREAM_END && !g_open,
 				     "C15.out.trailer");
 		else
 			VERIF_ASSERT(g_fed == used0, "C15.out.all_consumed");
